@@ -17,6 +17,7 @@ Definition run_line (fx : fxcfg) (cfg : ccfg) (w : wcfg) (line : bytes) : bytes 
       else if bytes_eqb p (s2b "ENC") then run_enc w args
       else if bytes_eqb p (s2b "DEC") then run_dec cfg w args
       else if bytes_eqb p (s2b "RT") then run_rt cfg w args
+      else if bytes_eqb p (s2b "REENC") then run_reenc cfg w args
       else if bytes_eqb p (s2b "ENCH") then run_ench cfg w args
       else if bytes_eqb p (s2b "EV") then run_ev cfg w args
       else if bytes_eqb p (s2b "GATE") then run_gate cfg w args
